@@ -14,6 +14,9 @@ type CSet = BTreeSet<char>;
 pub enum Opnd {
     Str(String),
     Range(char, char),
+    /// another constrained string type of the same kind, included by name (X.680 51.3 inside
+    /// FROM): `Incl-IA5String ::= IA5String (FROM ("<2nd and 3rd probe character>"))`
+    Incl(String),
 }
 
 #[derive(Clone, Debug, PartialEq, Eq, Hash, serde::Serialize, serde::Deserialize)]
@@ -115,6 +118,7 @@ fn opnd_set(o: &Opnd, k: StrKind, raw: bool) -> CSet {
             .filter_map(char::from_u32)
             .filter(|c| raw || in_base(k, *c))
             .collect(),
+        Opnd::Incl(_) => probe(k)[1..3].iter().copied().collect(),
     }
 }
 
@@ -173,7 +177,13 @@ fn opnd_text(o: &Opnd) -> String {
     match o {
         Opnd::Str(s) => q(s),
         Opnd::Range(a, b) => format!("{}..{}", q(&a.to_string()), q(&b.to_string())),
+        Opnd::Incl(n) => n.clone(),
     }
+}
+
+fn has_incl(e: &Expr) -> bool {
+    let is = |o: &Opnd| matches!(o, Opnd::Incl(_));
+    e.all_except.as_ref().map_or(false, is) || e.unions.iter().flatten().any(|x| is(&x.a) || x.except.as_ref().map_or(false, is))
 }
 
 pub fn expr_text(e: &Expr) -> String {
@@ -229,6 +239,12 @@ fn case_text(i: usize, c: &Case) -> String {
 
 fn module_text(cases: &[Case]) -> String {
     let mut s = String::from("Alpha-Mod DEFINITIONS AUTOMATIC TAGS ::= BEGIN\n");
+    let mut kinds: Vec<StrKind> = cases.iter().filter(|c| has_incl(&c.expr)).map(|c| c.kind).collect();
+    kinds.sort();
+    kinds.dedup();
+    for k in kinds {
+        s.push_str(&format!("Incl-{a} ::= {a} (FROM ({}))\n", q(&probe(k)[1..3].iter().collect::<String>()), a = k.asn()));
+    }
     for (i, c) in cases.iter().enumerate() {
         s.push_str(&case_text(i, c));
         s.push('\n');
@@ -343,6 +359,10 @@ fn classify(c: &Case, e: &Emitted, clause: &str) -> Option<&'static str> {
     match (&e.raw, c.form) {
         // F-alpha-alias: FROM on a constrained reference / a contained subtype is not carried over
         (None, Form::OnParent) | (None, Form::Contained) if clause == "exact" => Some("F-alpha-alias"),
+        // ... and neither is an included type among the operands: no alphabet is stated
+        (None, _) if clause == "exact" && has_incl(&c.expr) => Some("F-alpha-alias"),
+        // ... in a serial pair the constraint with the included type counts for nothing
+        (Some(raw), Form::Serial) if clause == "exact" && has_incl(&c.expr) && *raw == probe(c.kind)[..3].iter().copied().collect::<CSet>() => Some("F-alpha-alias"),
         (Some(raw), form) => {
             let mut model = flatten_model(&c.expr, c.kind);
             if form == Form::Serial {
@@ -411,6 +431,7 @@ fn operands(k: StrKind) -> Vec<Opnd> {
             v.push(Opnd::Str(t.to_string()));
         }
     }
+    v.push(Opnd::Incl(format!("Incl-{}", k.asn())));
     let mut sorted = p.clone();
     sorted.sort();
     for i in 0..sorted.len() {
@@ -472,6 +493,13 @@ fn nontrivial(c: &Case) -> bool {
 }
 
 fn run_cases(ctx: &mut Ctx, cases: Vec<Case>) {
+    // an included type inside a FROM that is intersected with SIZE goes through the range fold,
+    // whose treatment of contained subtypes is C04's listed finding F-contained-ignored: left out
+    let before = cases.len();
+    let cases: Vec<Case> = cases.into_iter().filter(|c| !(has_incl(&c.expr) && matches!(c.form, Form::SizeInter | Form::InterSize))).collect();
+    if before != cases.len() {
+        ctx.class_n("excluded:included-type-under-SIZE-intersection", (before - cases.len()) as u64);
+    }
     // interleave so that the slow BMP/Universal cases are spread over all chunks
     let n_chunks = (cases.len() / 150).max(1);
     let mut buckets: Vec<Vec<Case>> = vec![vec![]; n_chunks];
